@@ -56,3 +56,29 @@ spec("R1s-flip-cmp", "R1", (PROG, "if needs_to_pass and time_at_dest > target:",
 spec("R1s-nested-if", "R1", (PROG, "        if needs_to_pass and time_at_dest > target:\n            return time_at_dest\n        if not needs_to_pass and time_at_dest >= target:\n            return time_at_dest\n        return None", "        if needs_to_pass:\n            if time_at_dest > target:\n                return time_at_dest\n        elif time_at_dest >= target:\n            return time_at_dest\n        return None"))
 spec("R1s-rename", "R1", (SCHED, "    for suc_sim, adapt in sim.successors_to_wait_for.items():\n        futures.append(suc_sim.progress.has_reached(next_step + adapt))", "    for s2, a2 in sim.successors_to_wait_for.items():\n        futures.append(s2.progress.has_reached(next_step + a2))"))
 spec("R1s-gather-list", "R1", (SCHED, "    await asyncio.gather(*futures)", "    await asyncio.gather(*[f for f in futures])"), note="identity comprehension over the accumulator")
+
+# ----------------------------------------------------------------------------- R2
+_ADV_ANC = "        pre_step = earliest_pending_step(pre_sim)\n        if pre_step is not None:\n            pre_sim_induced_progress.append(pre_step + distance)\n"
+_MAX_ANC = "        anc_step = earliest_pending_step(anc_sim)\n        if anc_step is not None:\n            ancs_next_steps.append((anc_step + distance).time)\n"
+sens("R2-revert-D3-adv", "R2", "R2/anc", (SCHED, _ADV_ANC, "        if pre_sim.next_steps:\n            pre_sim_induced_progress.append(pre_sim.next_steps[0] + distance)\n"))
+sens("R2-revert-D3-max", "R2", "R2/anc", (SCHED, _MAX_ANC, "        if anc_sim.next_steps:\n            ancs_next_steps.append((anc_sim.next_steps[0] + distance).time)\n"))
+sens("R2-helper-heap-first", "R2", "R2/anc", (SCHED, "    if sim.current_step is not None:\n        return sim.current_step\n    if sim.next_steps:\n        return sim.next_steps[0]\n    return None", "    if sim.next_steps:\n        return sim.next_steps[0]\n    if sim.current_step is not None:\n        return sim.current_step\n    return None"))
+sens("R2-min-to-max", "R2", "R2/sink", (SCHED, "    new_progress = min([", "    new_progress = max(["))
+sens("R2-drop-current", "R2", "R2/own", (SCHED, "        *current_step_prog,\n", ""))
+sens("R2-drop-next", "R2", "R2/own", (SCHED, "        *next_step_progress,\n", ""))
+sens("R2-drop-until", "R2", "R2/until", (SCHED, "        *rt_progress,\n        TieredTime(world.until) + sim.from_world_time,\n", "        *rt_progress,\n        *([TieredTime(world.until) + sim.from_world_time] if not sim.next_steps else []),\n"))
+sens("R2-drop-distance", "R2", "R2/anc", (SCHED, "pre_sim_induced_progress.append(pre_step + distance)", "pre_sim_induced_progress.append(pre_step)"))
+sens("R2-drop-anc", "R2", "R2/anc", (SCHED, "        *pre_sim_induced_progress,\n", ""))
+sens("R2-max-no-minus1", "R2", "R2/", (SCHED, "    return min([*ancs_next_steps, *own_next_step, until + 1]) - 1", "    return min([*ancs_next_steps, *own_next_step, until])"))
+sens("R2-max-until-off", "R2", "R2/until", (SCHED, "    return min([*ancs_next_steps, *own_next_step, until + 1]) - 1", "    return min([*ancs_next_steps, *own_next_step, until]) - 1"))
+sens("R2-max-drop-own", "R2", "R2/own", (SCHED, "    return min([*ancs_next_steps, *own_next_step, until + 1]) - 1", "    return min([*ancs_next_steps, until + 1]) - 1"))
+sens("R2-max-drop-anc", "R2", "R2/anc", (SCHED, "    return min([*ancs_next_steps, *own_next_step, until + 1]) - 1", "    return min([*own_next_step, until + 1]) - 1"))
+sens("R2-rt-multiply", "R2", "R2/rt", (SCHED, "ceil(rt_passed / world.rt_factor)", "ceil(rt_passed * world.rt_factor)"))
+sens("R2-anc-only-when-heap", "R2", "R2/anc", (SCHED, "        if pre_step is not None:\n            pre_sim_induced_progress.append(pre_step + distance)", "        if pre_step is not None and pre_sim.next_steps:\n            pre_sim_induced_progress.append(pre_step + distance)"))
+
+spec("R2s-comprehension", "R2", (SCHED, "    pre_sim_induced_progress: List[TieredTime] = []\n    for pre_sim, distance in sim.triggering_ancestors.items():\n" + _ADV_ANC, "    pre_sim_induced_progress: List[TieredTime] = [\n        earliest_pending_step(p) + d\n        for p, d in sim.triggering_ancestors.items()\n        if earliest_pending_step(p) is not None\n    ]\n"))
+spec("R2s-let-idiom", "R2", (SCHED, "    pre_sim_induced_progress: List[TieredTime] = []\n    for pre_sim, distance in sim.triggering_ancestors.items():\n" + _ADV_ANC, "    pre_sim_induced_progress: List[TieredTime] = [\n        st + d\n        for p, d in sim.triggering_ancestors.items()\n        for st in [earliest_pending_step(p)]\n        if st is not None\n    ]\n"))
+spec("R2s-inline-helper", "R2", (SCHED, "        pre_step = earliest_pending_step(pre_sim)\n        if pre_step is not None:\n            pre_sim_induced_progress", "        pre_step = pre_sim.current_step if pre_sim.current_step is not None else (pre_sim.next_steps[0] if pre_sim.next_steps else None)\n        if pre_step is not None:\n            pre_sim_induced_progress"))
+spec("R2s-helper-min", "R2", (SCHED, "    if sim.current_step is not None:\n        return sim.current_step\n    if sim.next_steps:\n        return sim.next_steps[0]\n    return None", "    if sim.current_step is not None:\n        return min(sim.current_step, sim.next_steps[0]) if sim.next_steps else sim.current_step\n    if sim.next_steps:\n        return sim.next_steps[0]\n    return None"))
+spec("R2s-max-distributed", "R2", (SCHED, "    return min([*ancs_next_steps, *own_next_step, until + 1]) - 1", "    return min([*[a - 1 for a in ancs_next_steps], *[o - 1 for o in own_next_step], until])"))
+spec("R2s-min-args", "R2", (SCHED, "    current_step_prog = [sim.current_step] if sim.current_step else []", "    current_step_prog = [sim.current_step] if sim.current_step is not None else []"))
